@@ -308,6 +308,16 @@ func TestVerifC31Worker(t *testing.T) {
 				if len(st.HarnessErrs) > 3 || st.Counters["violations_not_listed"] > 2000 {
 					return
 				}
+				if g == 1 && st.Cases%500 == 0 {
+					// checkpoint: if this process dies later, the parent keeps these numbers and resumes at Next
+					st.Next = i + w
+					if b, err := json.Marshal(st); err == nil {
+						tmp := filepath.Join(dir, fmt.Sprintf("ckpt-%d-%d.tmp", k, from))
+						if os.WriteFile(tmp, b, 0o644) == nil {
+							os.Rename(tmp, filepath.Join(dir, fmt.Sprintf("ckpt-%d-%d.json", k, from)))
+						}
+					}
+				}
 			}
 			cur.Truncate(0)
 		}(gi)
@@ -366,15 +376,6 @@ func c31Merge(into, from *c31Stats) {
 
 // ---------------------------------------------------------------------------------------------
 // parent
-
-type c31Child struct {
-	k      uint64
-	from   uint64
-	skip   []uint64
-	only   string
-	out    string
-	exited error
-}
 
 func c31Spawn(c *kit.Ctx, dir string, k, w, n uint64, g int, from uint64, skip []uint64, only string) (outFile string, err error) {
 	self := os.Getenv("VERIF_SELF")
@@ -475,7 +476,8 @@ func TestVerifC31Programs(t *testing.T) {
 			defer wg.Done()
 			from := uint64(0)
 			var skip []uint64
-			for attempt := 0; attempt < 6; attempt++ {
+			unknownCrashes := 0
+			for attempt := 0; attempt < 400 && unknownCrashes < 6; attempt++ {
 				out, err := c31Spawn(c, dir, k, w, n, g, from, skip, "")
 				resFile := filepath.Join(dir, fmt.Sprintf("res-%d-%d.json", k, from))
 				if b, rerr := os.ReadFile(resFile); rerr == nil && err == nil {
@@ -514,22 +516,51 @@ func TestVerifC31Programs(t *testing.T) {
 					mu.Unlock()
 					return
 				}
-				confirmed := false
+				excerpt := c31CrashExcerpt(out, 6000)
+				key := c31CrashKey(excerpt)
+				isNew := false
 				minIdx := cands[0].Index
 				for _, cs := range cands {
 					minIdx = min(minIdx, cs.Index)
-					sout, serr := c31Spawn(c, dir, k, w, n, 1, 0, nil, strconv.FormatUint(cs.Index, 10))
-					if serr != nil {
-						confirmed = true
-						c.Violation("process-crash", map[string]any{"case": cs, "exit": serr.Error(), "reproduced_alone": true,
-							"output": c31CrashExcerpt(sout, 6000), "note": "the process evaluating this program died (fatal error, sanitizer abort or uncaught runtime failure)"})
-					}
 					skip = append(skip, cs.Index)
 				}
-				if !confirmed {
-					c.Violation("process-crash", map[string]any{"candidates": cands, "exit": fmt.Sprint(err), "reproduced_alone": false, "output": c31CrashExcerpt(out, 6000)})
+				if len(cands) == 1 {
+					// one goroutine per worker: the program being evaluated when the process died is unambiguous
+					isNew = c.Violation(key, map[string]any{"case": cands[0], "exit": fmt.Sprint(err), "output": excerpt,
+						"note": "the process evaluating this program died (fatal error, sanitizer abort or uncaught runtime failure)"})
+				} else {
+					confirmed := false
+					for _, cs := range cands {
+						sout, serr := c31Spawn(c, dir, k, w, n, 1, 0, nil, strconv.FormatUint(cs.Index, 10))
+						if serr != nil {
+							confirmed = true
+							ex := c31CrashExcerpt(sout, 6000)
+							if c.Violation(c31CrashKey(ex), map[string]any{"case": cs, "exit": serr.Error(), "reproduced_alone": true, "output": ex,
+								"note": "the process evaluating this program died (fatal error, sanitizer abort or uncaught runtime failure)"}) {
+								isNew = true
+							}
+						}
+					}
+					if !confirmed {
+						isNew = c.Violation(key, map[string]any{"candidates": cands, "exit": fmt.Sprint(err), "reproduced_alone": false, "output": excerpt})
+					}
 				}
-				from = minIdx
+				if isNew {
+					unknownCrashes++ // crashes listed as known findings do not stop the exploration
+				}
+				_ = minIdx
+				next := from // without a checkpoint nothing of this run was counted: run it again, minus the skipped case(s)
+				if b, rerr := os.ReadFile(filepath.Join(dir, fmt.Sprintf("ckpt-%d-%d.json", k, from))); rerr == nil {
+					st := c31NewStats()
+					if json.Unmarshal(b, st) == nil && st.Next > from {
+						// keep what the dead worker had measured up to its last checkpoint and resume there
+						mu.Lock()
+						c31Merge(total, st)
+						mu.Unlock()
+						next = st.Next
+					}
+				}
+				from = next
 			}
 		}(k)
 	}
@@ -627,13 +658,57 @@ func TestVerifC31Programs(t *testing.T) {
 	c.Require("outcome:Application/error", int64(n)/20)
 	c.Require("programs_100_steps_or_more", int64(n)/50)
 	c.Require("opcodes_executed_100_times", 150)
-	c.Require("max_stack_depth", 1000)          // the stack limit itself was reached by a successful step
+	c.Require("max_stack_depth", 1000)           // the stack limit itself was reached by a successful step
 	c.Require("max_stack_depth_transient", 1001) // and crossed by a failing one
 	c.Require("max_byte_value", 4096)
 	c.Require("max_cost_one_program", 19000) // a logicsig ran up to (nearly) its whole budget
 	c.Require("max_callstack_depth", 300)
 	c.Require("max_inner_app_depth", 1)
 	c.Require("max_inner_txns", 1)
+}
+
+// c31CrashKey turns the reason a worker died into a finding class (so that a triaged report can be
+// listed in known-findings.jsonl without hiding other crashes).
+func c31CrashKey(excerpt string) string {
+	slug := func(s string) string {
+		var b strings.Builder
+		dash := false
+		for _, ch := range strings.ToLower(s) {
+			switch {
+			case ch >= 'a' && ch <= 'z':
+				b.WriteRune(ch)
+				dash = false
+			case !dash && b.Len() > 0:
+				b.WriteByte('-')
+				dash = true
+			}
+			if b.Len() >= 70 {
+				break
+			}
+		}
+		return strings.Trim(b.String(), "-")
+	}
+	first, _, _ := strings.Cut(excerpt, "\n")
+	frame0 := ""
+	if i := strings.Index(excerpt, "#0 "); i >= 0 {
+		ln, _, _ := strings.Cut(excerpt[i:], "\n")
+		if _, fn, ok := strings.Cut(ln, " in "); ok {
+			frame0, _, _ = strings.Cut(fn, " ")
+		}
+	}
+	switch {
+	case strings.Contains(excerpt, "ERROR: AddressSanitizer"):
+		_, kind, _ := strings.Cut(first, "AddressSanitizer: ")
+		kind, _, _ = strings.Cut(kind, " ")
+		return "asan:" + slug(kind) + "@" + frame0
+	case strings.HasPrefix(first, "runtime error:") && frame0 != "":
+		return "ubsan:" + slug(strings.TrimPrefix(first, "runtime error:")) + "@" + frame0
+	case strings.HasPrefix(first, "fatal error:"):
+		return "fatal:" + slug(strings.TrimPrefix(first, "fatal error:"))
+	case strings.HasPrefix(first, "panic:"):
+		return "go-panic:" + slug(strings.TrimPrefix(first, "panic:"))
+	}
+	return "process-crash"
 }
 
 // c31CrashOrigin looks at the output of a dead worker: for a Go panic / fatal error the first
